@@ -108,7 +108,9 @@ def prop(case):
             an = max(np.abs(A).max(), 1e-300)
             e1 = np.abs(A @ cov @ A - A).max() / an
             e2 = np.abs(cov @ A @ cov - cov).max() / cs
-            check(e1 <= 1e-6 and e2 <= 1e-6, "stats.covariance_pseudo_inverse", lambda: f"Penrose residuals {e1:.2e} {e2:.2e}")
+            cnz = sv.max() / sv[sv ** 2 > 1e3 * eps].min()
+            ptol = 1e3 * eps * cnz ** 2 + 1e-9  # the pseudo-inverse of J^T J carries rounding of order eps * cond(J)^2
+            check(e1 <= ptol and e2 <= ptol, "stats.covariance_pseudo_inverse", lambda: f"Penrose residuals {e1:.2e} {e2:.2e} > {ptol:.2e}")
             tags.append("rank_deficient_jacobian")
         else:
             tags.append("jacobian_conditioning_unclear_skipped")
